@@ -76,8 +76,20 @@ def showFloat (b : BitVec 64) : String := "f:" ++ natToHex 16 b.toNat
 def mkDev (base : Int) (img : Bytes) (refuse : List Nat) : Dev :=
   { mem := Mem.ofBytes base img, refuse := fun n => refuse.contains n }
 
-def finish (base : Int) (n : Nat) (res : String) (d : Dev) : String :=
-  s!"{res};{showLog d.log};{bytesToHex (d.mem.readRange base n)}"
+/-- result, access log, final window image; for a call that ends in an error only the
+number of write entries is reported instead of the exact log (the property says "refused
+without a device write", not which reads precede the refusal) -/
+def finish (base : Int) (n : Nat) (res : String) (d : Dev) (negLen : Bool := false)
+    (unsupported : Bool := false) : String :=
+  -- typed access to an integer/float register of unsupported length: the property says "refused
+  -- with an error", not which error wins when the port or device would fail as well
+  let res := if unsupported && res.startsWith "err" then "err UnsupportedLength" else res
+  -- a negative <Length> is outside the statement (malformed description): there the code panics
+  -- (capacity overflow) or errors; both are reported as `refused` so that turning the panic into
+  -- an error is not a tie break
+  let res := if negLen && (res == "panic" || res.startsWith "err") then "refused" else res
+  let log := if res.startsWith "err" || res == "refused" then s!"W={writesIn d.log}" else showLog d.log
+  s!"{res};{log};{bytesToHex (d.mem.readRange base n)}"
 
 def handle : List String → String
   | [op, chunk, e, s, addr, len, base, img, refuse, arg] =>
@@ -85,7 +97,10 @@ def handle : List String → String
     | some chunk, some e, some s, some addr, some len, some base, some img, some refuse =>
       let port : Port := ⟨chunk == 1⟩
       let d := mkDev base img refuse
-      let fin := finish base img.length
+      let unsupported : Bool :=
+        ((op == "int.value" || op == "int.set") && !(len == 1 || len == 2 || len == 4 || len == 8)) ||
+        ((op == "float.value" || op == "float.set") && !(len == 4 || len == 8))
+      let fin := fun (res : String) (d : Dev) => finish base img.length res d (decide (len < 0)) unsupported
       if op == "int.value" then
         let (r, d') := IntReg.value port e s addr len d
         fin (showRes (fun v => s!"ok {v.toInt}") r) d'
